@@ -90,6 +90,13 @@ def cases(seed, tier):
                 )
         inj.sort(key=lambda x: x["at"]["step"])
         c["script"][ci]["inject"] = inj
+        # a Pausable device that refuses to be replayed (pause() raises NoReplayAllowed): the engine then must not
+        # re-execute interrupted messages, but a suspension whose wait was interrupted still has to hold
+        pausables = [d for d, s in c["devices"].items() if s["kind"] in ("pmotor", "pdet")]
+        if pausables and rng.random() < 0.35:
+            p = rng.choice(pausables)
+            for occ in rng.choice([[0], [1], [0, 1], [0, 1, 2]]):
+                c["devices"][p].setdefault("faults", {})[f"pause#{occ}"] = {"kind": "raise", "exc": "NoReplayAllowed"}
         yield c
 
 
